@@ -709,17 +709,9 @@ class Gen:
             tail = self.simple(d, ctx)
         else:
             tail = self.simple_t(t, d, ctx)
-        if t == F and must_use:
-            if tail.kind == "if":
-                # an `if` as operand of arithmetic with aggregates built in its arms is the listed crash F17: bind it first
-                z = self.fresh()
-                inner = Node("var", z)
-                for y in must_use:
-                    inner = Node("bin", "add", inner, Node("var", y))
-                tail = Node("let", z, tail, inner)
-            else:
-                for y in must_use:
-                    tail = Node("bin", "add", tail, Node("var", y))
+        if t == F:
+            for y in must_use:
+                tail = Node("bin", "add", tail, Node("var", y))
         for st in reversed(stmts):
             if st[0] == "let":
                 tail = Node("let", st[1], st[2], tail)
